@@ -98,6 +98,35 @@ func FlowPath(v ssa.Value, use ssa.Instruction, isSource func(ssa.Value) bool, c
 		if isSource(x) {
 			return true
 		}
+		// the result of a helper of the repository: the flow continues at its returns
+		{
+			var cl *ssa.Call
+			idx := 0
+			switch y := x.(type) {
+			case *ssa.Call:
+				cl = y
+			case *ssa.Extract:
+				if c2, ok := y.Tuple.(*ssa.Call); ok {
+					cl, idx = c2, y.Index
+				}
+			}
+			if cl != nil {
+				if cal := cl.Call.StaticCallee(); cal != nil && helperOK(cal) && privateCallSite(cal) == ssa.CallInstruction(cl) {
+					found := false
+					Instrs(cal, func(in ssa.Instruction) {
+						if r, ok := in.(*ssa.Return); ok && idx < len(r.Results) && in.Block() != cal.Recover && !found {
+							if FlowPath(r.Results[idx], r, isSource, cut, transfer) {
+								found = true
+							}
+						}
+					})
+					if found {
+						return true
+					}
+					continue
+				}
+			}
+		}
 		if transfer != nil {
 			for _, o := range transfer(x) {
 				o = Strip(o)
